@@ -262,7 +262,10 @@ META = {
                    "are compared; every 5th operation the tree is closed and re-opened."),
     "level_note": ("Not a proof about breezy: bounded sampling of operation sequences. Trusted: Coq kernel, vm_compute, "
                    "the driver/canonicaliser in harness/props/c09.py (git rename/copy detection rows are split into "
-                   "add+delete), the Python mirror only for generator steering and for locating 'unmodelled' steps."),
+                   "add+delete), the Python mirror only for generator steering and for locating 'unmodelled' steps. "
+                   "After the repair round (175898e, aa28d9a, 1cfde6e, 42c6067) a failed OS rename is a BzrMoveFailedError in both "
+                   "formats, git status/commit tolerate a directory replaced by a file and git commit keeps the source of a copy; "
+                   "five findings remain known (notes/C09.md)."),
     "design_ref": "DESIGN.md §5 C09",
     "trusted_base": ["hand-written specification coq/Model/WT.v", "correspondence harness harness/props/c09.py",
                      "POSIX file system semantics of the scratch directory (rename into own subtree = EINVAL, ENOENT/ENOTDIR)"],
@@ -404,7 +407,8 @@ _CORPUS = [
     ("git", [["osmkdir", "a"], ["osmkdir", "a/b"], ["put", "a/b/c", 1], ["add", "a/b/c"], ["commit"], ["ren", "a", "d"], ["chmod", "d/b/c", True], ["commit"], ["rmf", "d"], ["revert"]]),
     ("bzr", [["put", "a", 1], ["add", "a"], ["commit"], ["ren", "a", "b"], ["put", "a", 2], ["ren", "a", "c"], ["commit"]]),
     ("bzr", [["put", "a", 1], ["add", "a"], ["commit"], ["rmk", "a"], ["ren", "a", "b"], ["commit"], ["revert"]]),
-    # candidate findings (see notes/C09.md); each must still agree with the model
+    # findings (see notes/C09.md); each must agree with the model.  The witnesses of the four REPAIRED findings
+    # (oserror-subscript, git-oserror, git-notadir, git-commit-copy) are regression inputs that must now pass.
     ("bzr", [["mkdir", "a"], ["mkdir", "a/b"], ["ren", "a", "a/b/c"], ["mv", "a", "a/b"]]),                                   # C09-bzr-oserror-subscript
     ("bzr", [["mkdir", "a"], ["put", "c", 1], ["add", "c"], ["osrm", "a"], ["ren", "c", "a/c"]]),                            # C09-bzr-oserror-subscript
     ("bzr", [["mkdir", "d"], ["put", "d/x", 1], ["add", "d/x"], ["commit"], ["rmk", "d"], ["put", "d/y", 2], ["add", "d/y"]]),  # C09-bzr-add-under-removed
@@ -558,22 +562,18 @@ def finding_matches(fid, inp, obs, why):
     s, e, cut = _mirror_at(inp, i)
     fmt = inp["fmt"]
     cut_op = ops[cut][0] if cut is not None else None
-    if fid == "C09-bzr-oserror-subscript":
-        return fmt == "bzr" and cut is None and ops[i][0] in ("ren", "mv") and e == "TypeError" and "TypeError" in why
-    if fid == "C09-git-oserror":
-        return fmt == "git" and cut is None and ops[i][0] in ("ren", "mv") and e == "OSError" and "OSError" in why
+    # (C09-bzr-oserror-subscript, C09-git-oserror, C09-git-notadir, C09-git-commit-copy are FIXED in /repo:
+    #  175898e, 42c6067, 1cfde6e, aa28d9a -- their witnesses stay in corpus() and must pass)
     if fid == "C09-bzr-add-under-removed":
         return fmt == "bzr" and cut_op in ("add", "mkdir")
     if fid == "C09-git-revert-keyerror":
         return fmt == "git" and cut_op == "revert" and cut == i and "KeyError" in why
     if fid == "C09-git-revert-rename-detect":
-        return fmt == "git" and cut_op == "revert" and "KeyError" not in why
+        return fmt == "git" and cut_op == "revert" and "KeyError" not in why and "TransformRenameFailed" not in why
     if fid == "C09-bzr-rename-removed-inconsistent":
         return fmt == "bzr" and cut is None and ops[i][0] == "ren" and e == "InconsistentDelta" and "InconsistentDelta" in why
-    if fid == "C09-git-commit-copy":
-        return fmt == "git" and cut_op == "commit"
-    if fid == "C09-git-notadir":
-        return fmt == "git" and cut is None and M.g_notadir(s) and "NotADirectoryError" in why
+    if fid == "C09-git-revert-notadir":
+        return fmt == "git" and cut_op == "revert" and cut == i and M.g_notadir(s) and "TransformRenameFailed" in why
     if fid == "C09-git-commit-dirified":
         return (fmt == "git" and cut is None and ops[i][0] == "commit" and "status not empty after commit" in why
                 and any(M.isdir(s.disk, p) for p in s.index))
